@@ -19,7 +19,7 @@ def private_array_line(rng):
     for nm in names:
         out.append("#S %d %s\n#UCELL %.4f %.4f %.4f %.3f %.3f %.3f\n#N 5\n#L  AtomicNumber  Fraction  X  Y  Z\n" %
                    (rng.randint(1, 90), nm, rng.uniform(2, 12), rng.uniform(2, 12), rng.uniform(2, 12), rng.choice((90.0, rng.uniform(60, 120))), 90.0, rng.choice((90.0, 120.0))))
-        for _ in range(rng.randint(1, 5)):
+        for _ in range(0 if rng.random() < 0.15 else rng.randint(1, 5)):      # now and then a header-only block: a crystal without atoms
             out.append("%d %.3f %.4f %.4f %.4f\n" % (rng.randint(1, 92), rng.choice((1.0, 0.5)), rng.random(), rng.random(), rng.random()))
     kind = rng.random()
     if kind < 0.15 and len(names) > 1:
